@@ -43,6 +43,7 @@ NextOf(e) ==
     [] e.a = "PublishRejected" -> N_PublishRejected(e.args.v)
     [] e.a = "Fetch" -> LET nt == N_Fetch(e.args.f, TRUE) IN
                         IF nt.hw = Fn(e.st.hw) THEN nt ELSE N_Fetch(e.args.f, FALSE)
+    [] e.a = "FetchLost" -> N_FetchLost(e.args.f)
     [] e.a = "LagExpire" -> N_LagExpire(e.args.f)
     [] e.a = "Shrink" -> N_Shrink(e.args.f)
     [] e.a = "Expand" -> N_Expand(e.args.f)
@@ -60,6 +61,7 @@ GuardOf(e) ==
   CASE e.a = "Publish" -> G_Publish(e.args.recs)
     [] e.a = "PublishRejected" -> G_PublishRejected(e.args.v)
     [] e.a = "Fetch" -> G_Fetch(e.args.f)
+    [] e.a = "FetchLost" -> G_FetchLost(e.args.f)
     [] e.a = "LagExpire" -> TRUE
     [] e.a = "Shrink" -> Leading(Leader) /\ e.args.f \in meta.isr
     [] e.a = "Expand" -> Leading(Leader) /\ e.args.f \notin meta.isr
